@@ -313,6 +313,14 @@ pub fn scheme_family(which: usize) -> SchemeSpec {
                 nil_ne: true,
             }
         }
+        // every field's type drawn by the tape (any primitive under up to three container layers in any order)
+        8 => SchemeSpec {
+            family: "random_types",
+            fields: (0..range(2, 6, "scheme.rt_n")).map(|i| f(&format!("r{i}"), crate::model::gen_type(3), true)).collect(),
+            functions: vec!["echo", "lower", "len"],
+            lists: vec![],
+            nil_ne: true,
+        },
         _ => SchemeSpec {
             family: "all_optional",
             fields: vec![f("x", Int, true), f("y", Bytes, true), f("z", Ip, true), f("w", Bool, true), f("m", Map(b(Bytes)), true)],
@@ -621,8 +629,18 @@ fn gen_cmp(spec: &SchemeSpec, pool: &[MValue]) -> Option<String> {
         2 => MType::Ip,
         _ => MType::Bool,
     };
-    let (path, _, each) = gen_path(spec, Some(&want), true)?;
+    let (path, _, mut each) = gen_path(spec, Some(&want), true)?;
     let (mut lhs, ty) = wrap_fn(spec, path.clone(), &want);
+    let mut path = path;
+    if want == MType::Bytes && spec.functions.contains(&"concat") && chance(1, 16, "cmp.literal_call") {
+        // a call whose arguments are all literals: nothing of the context enters the left-hand side
+        crate::kernel::count("gen.literal_only_call");
+        // (an empty second literal half of the time: the result is then a pool value, which set lists may contain)
+        let second = if chance(1, 2, "cmp.literal_call_empty") { "\"\"".to_string() } else { literal_for(&MType::Bytes, pool) };
+        lhs = format!("concat({}, {second})", literal_for(&MType::Bytes, pool));
+        path = lhs.clone();
+        each = false;
+    }
     if each && lhs != path {
         // a function applied to a [*] path yields an array: iterate it again for the comparison
         lhs.push_str("[*]");
@@ -719,13 +737,39 @@ fn gen_needle(pool: &[MValue]) -> String {
 }
 
 /// Boolean filter text of bounded depth.
+/// Filter text. One text in five is laid out with line breaks and runs of blanks where the others have one space.
 pub fn gen_filter(spec: &SchemeSpec, pool: &[MValue], depth: usize) -> Option<String> {
+    let text = gen_filter_inner(spec, pool, depth)?;
+    Some(if chance(1, 5, "flt.layout") { vary_whitespace(&text) } else { text })
+}
+
+/// Replace blanks outside string literals by a tape-chosen blank sequence (space, line feed, CR LF, several spaces).
+pub fn vary_whitespace(text: &str) -> String {
+    let mut out = String::with_capacity(text.len() + 8);
+    let mut in_str = false;
+    let mut prev = ' ';
+    for c in text.chars() {
+        if c == '"' && (prev != '\\' || !in_str) {
+            in_str = !in_str;
+        }
+        if c == ' ' && !in_str {
+            out.push_str([" ", "\n", "\r\n", "  ", " \n "][choose(5, "flt.blank")]);
+        } else {
+            out.push(c);
+        }
+        prev = c;
+    }
+    crate::kernel::count("gen.layout_varied");
+    out
+}
+
+fn gen_filter_inner(spec: &SchemeSpec, pool: &[MValue], depth: usize) -> Option<String> {
     if depth == 0 || chance(2, 5, "flt.leaf") {
         return gen_cmp(spec, pool);
     }
     match choose(5, "flt.kind") {
-        0 => Some(format!("not {}", gen_filter(spec, pool, depth - 1)?)),
-        1 => Some(format!("({})", gen_filter(spec, pool, depth - 1)?)),
+        0 => Some(format!("not {}", gen_filter_inner(spec, pool, depth - 1)?)),
+        1 => Some(format!("({})", gen_filter_inner(spec, pool, depth - 1)?)),
         k => {
             let op = match k {
                 2 => ["and", "&&"][choose(2, "flt.alias")],
@@ -734,8 +778,8 @@ pub fn gen_filter(spec: &SchemeSpec, pool: &[MValue], depth: usize) -> Option<St
             };
             Some(format!(
                 "{} {op} {}",
-                gen_filter(spec, pool, depth - 1)?,
-                gen_filter(spec, pool, depth - 1)?
+                gen_filter_inner(spec, pool, depth - 1)?,
+                gen_filter_inner(spec, pool, depth - 1)?
             ))
         }
     }
